@@ -5,16 +5,19 @@
 package zkenc
 
 //@ func (*Proof).IsValid
+//@   use bits
 //@   nopanic[C05]
 //@   inline
-//@   requires public.K != nil && pkok(public.Prover) && pedok(public.Aux)
+//@   requires public.K != nil && pkok(public.Prover) && pkvals(public.Prover) && pkbig(public.Prover) && pedok(public.Aux)
 
 //@ func (*Proof).Verify
+//@   use bits
 //@   nopanic[C05]
 //@   modifies hstate(hash)
-//@   requires group != nil && hash != nil && hash.h != nil && public.K != nil && pkok(public.Prover) && pedok(public.Aux)
+//@   requires group != nil && hash != nil && hash.h != nil && public.K != nil && pkok(public.Prover) && pkvals(public.Prover) && pkbig(public.Prover) && pedok(public.Aux)
 
 //@ func challenge
+//@   use bits
 //@   nopanic[C05]
 //@   inline
-//@   requires hash != nil && hash.h != nil && group != nil && public.K != nil && pkok(public.Prover) && pedok(public.Aux) && commitment != nil
+//@   requires hash != nil && hash.h != nil && group != nil && public.K != nil && pkok(public.Prover) && pkvals(public.Prover) && pkbig(public.Prover) && pedok(public.Aux) && commitment != nil
